@@ -172,13 +172,36 @@ func c03Variants() []stdVariant {
 func TestC03(t *testing.T) {
 	V.Rule("lab: the property's decision table {Route: none/own/own+next/next} x {To host: exact/wildcard/only default/none} x {Request-URI: name literal/regex-only/user@host/urn-tel/listener address:port/foreign} x {keep-next-hop-route on/off} x {next-hop transport udp/tcp/unsupported} enumerated cell by cell over 4 service instances started from generated YAML; each cell instantiated with rapid-generated users, ports, parameters, methods, aliases, extra headers, UDP or TCP ingress, any of the listen entries. Oracle: reference model (Route, then static route by To host, then service match, else drop); exactly one reception at the expected endpoint (any backend of the receiving listen entry for the backend outcome), nothing anywhere else after a FIFO barrier. non-trivial = >= 2 rules applicable (precedence decides) or a drop outcome; distinct by (instance, cell, message)")
 	V.Assume("loopback delivery is effectively synchronous; a scheduling hiccup can only hide an extra copy (lost sensitivity), presence waits up to 20 s")
-	V.Require("outcome:route", "outcome:static", "outcome:backend", "outcome:drop", "precedence decides", "ingress:tcp", "unsupported transport dropped")
+	V.Require("a tcp next hop that refuses connections, then accepts them", "outcome:route", "outcome:static", "outcome:backend", "outcome:drop", "precedence decides", "ingress:tcp", "unsupported transport dropped")
 	k := V.N(8, 60)
 	if V.replay {
 		k = 0
 	}
 	variants := c03Variants()
 	cellsCovered := map[string]bool{}
+	// a fault history: the chosen destination cannot be reached, then it can
+	fsvc, err := newStdSvc(stdVariant{})
+	if err != nil {
+		V.HarnessError(t, "cannot start lab instance: %v", err)
+	}
+	rcheck(t, "refusing-hop", V.N(10, 120), func(rt *rapid.T) {
+		s := fsvc
+		obs, ok, err := s.hopOutage(rt, t.Name()+"/refusing-hop", false)
+		if _, lost := err.(labLost); lost {
+			failf(rt, "%v\nhistory: %s", err, obs)
+		} else if err != nil {
+			V.HarnessError(rt, "%v", err)
+		}
+		if !ok {
+			return
+		}
+		V.Class("a tcp next hop that refuses connections, then accepts them")
+		V.NonTrivial("refusing|" + obs.String())
+		V.SampleEvery(10, func() any { return obs })
+		if f := hopDestination(obs); f != "" {
+			failf(rt, "%s", f)
+		}
+	})
 	for vi, v := range variants {
 		svc, err := newStdSvc(v)
 		if err != nil {
